@@ -305,6 +305,22 @@ def r16_3(ctx: Ctx):
                "fragment (slices of the line, split/join, '' literals); not decided on this tree", undecided=True)
         return
     ctx.extra["split_states"] = [{"returns": src, "content": repr(a), "comment": repr(b)} for a, b, src in states]
+    # the split itself drops only the separator: exact forms of the pieces
+    from ..pat import find as pfind, has as phas
+    lp = [p_ for p_ in parse.params if p_ not in ("cls", "self")][0]
+    forms = {"comment-only line": "if %s.startswith(';'):\n    return ('', %s[1:])" % (lp, lp),
+             "preprocessor line": "if %s.startswith('#'):\n    return ('', %s[:])" % (lp, lp)}
+    for what, pat_ in forms.items():
+        ok_ = phas(parse.node, pat_) or (what == "preprocessor line" and phas(parse.node, "if %s.startswith('#'):\n    return ('', %s)" % (lp, lp)))
+        ctx.ob("R16.3", parse, what, ok_, "a %s is split into ('', the text after the marker) without losing characters" % what, node=parse.node)
+    sp = pfind(parse.node, "V_s = %s.split(';')" % lp)
+    oks = False
+    if sp:
+        sv = sp[0][1]["V_s"]
+        oks = phas(parse.node, "return (%s[0], ';'.join(%s[1:]))" % (sv, sv))
+    ctx.ob("R16.3", parse, "content ; comment line", oks,
+           "a line with trailing comment(s) is split at the first ';': content = first piece, comment = all later pieces "
+           "re-joined with ';'", node=sp[0][0] if sp else parse.node)
     # field names: parse result is stored as self.<c>, self.<m> = self.parse_itp_line(line)
     init = ctx.func("ItpLine.__init__")
     fields = None
